@@ -56,7 +56,7 @@ func (g *progGen) term(depth int) *term.Term {
 		default:
 			return term.C("g", g.term(depth-1))
 		}
-	case k < 93:
+	case k < 88:
 		n := g.pick(3)
 		es := make([]*term.Term, n)
 		for i := range es {
@@ -64,7 +64,7 @@ func (g *progGen) term(depth int) *term.Term {
 		}
 		return term.L(es...)
 	default:
-		n := 1 + g.pick(2)
+		n := 1 + g.pick(4) // open lists with up to 4 known elements (two of different lengths have to meet now and then)
 		es := make([]*term.Term, n)
 		for i := range es {
 			es[i] = g.term(depth - 1)
